@@ -285,6 +285,12 @@ def apply_edits(doc, edits):
 
 
 TMP = None
+SOURCES = {}       # id(document) -> (document, the bytes it was loaded from)
+
+
+def loaded(data, doc):
+    SOURCES[id(doc)] = (doc, data)
+    return doc
 
 
 def xml_text(spec):
@@ -292,7 +298,7 @@ def xml_text(spec):
     elements and attributes inside a top-level <extra> (and inside a node's <extra>) under chosen prefixes"""
     c = spec.get('rootprefix') or ''
     cp = c + ':' if c else ''
-    decl = ['xmlns%s="%s"' % (':' + c if c else '', NS)]
+    decl = ['xmlns%s="%s"' % (':' + c if c else '', spec.get('ns') or NS)]
     body = []
     for k, (pfx, uri) in enumerate(spec.get('foreign', [])):
         if pfx:
@@ -321,6 +327,8 @@ def other_step(att, fail):
     for o in att.get('docs', []):
         try:
             d = build(o)
+            if o.get('ns'):
+                continue      # a document in another namespace is only loaded (saving those: C01/C15 finding)
             if 'write' in att.get('acts', []):
                 b1 = healthy_bytes(d)
                 b2 = healthy_bytes(d)
@@ -374,6 +382,7 @@ def build(spec):
     if spec['kind'] == 'pathdoc':
         d, dae, zp = project(spec)
         how = spec.get('how', 'path')
+        srcdata = open(dae, 'rb').read()
         if how == 'path':
             doc = collada.Collada(dae)
         elif how == 'zip':
@@ -386,11 +395,11 @@ def build(spec):
         else:
             doc = collada.Collada(open(dae, 'rb'))
         apply_edits(doc, spec.get('edits', []))
-        return doc
+        return loaded(srcdata, doc)
     if spec['kind'] == 'xml':
         doc = collada.Collada(io.BytesIO(xml_text(spec)))
         apply_edits(doc, spec.get('edits', []))
-        return doc
+        return loaded(xml_text(spec), doc)
     if spec['kind'] == 'file':
         data = open(os.path.join(DATA, spec['name']), 'rb').read()
         if spec.get('ext'):
@@ -398,7 +407,7 @@ def build(spec):
             root = ET.fromstring(data)
             inject(root, spec['ext'])
             data = ET.tostring(root)
-        doc = collada.Collada(io.BytesIO(data))
+        doc = loaded(data, collada.Collada(io.BytesIO(data)))
     else:
         doc = build_prog(spec['params'])
         if spec.get('via_load'):
@@ -406,7 +415,8 @@ def build(spec):
             ET.register_namespace('', NS)
             root = ET.fromstring(data)
             inject(root, spec.get('ext', []))
-            doc = collada.Collada(io.BytesIO(ET.tostring(root)))
+            data = ET.tostring(root)
+            doc = loaded(data, collada.Collada(io.BytesIO(data)))
         else:
             inject(doc.xmlnode.getroot(), spec.get('ext', []))
     if doc.xmlnode.getroot().find(T('asset')) is None or spec.get('fix_dates'):
@@ -606,9 +616,12 @@ def apply_fault(doc, fault):
     for f in fault or []:
         if f[0] == 'scene':
             old = doc.scene
-            doc.scene = scene.Scene(f[1], [])
+            sid = f[1]
+            if isinstance(sid, list):      # ['same', k]: a copy of the k-th scene - same id, another object
+                sid = doc.scenes[sid[1] % len(doc.scenes)].id if len(doc.scenes) else 'no-such-scene'
+            doc.scene = scene.Scene(sid, [])
             undo.append(lambda old=old: setattr(doc, 'scene', old))
-            sc = f[1]
+            sc = sid
         elif f[0] == 'camera':
             c = doc.cameras[f[1]]
             combo = PERSP_BAD[f[2]]
@@ -707,7 +720,18 @@ def run_doc(spec, tmpdir):
     ob = Obs(enc)
     ob.register_doc(doc)
     before_unm = ob.unmanaged(doc.xmlnode.getroot())
-    before_canon = [chash(c) for c in before_unm]
+    src = SOURCES.get(id(doc))
+    if src is not None and not src[1].startswith(b'PK'):
+        # a loaded document: "survives load then save" is judged against the bytes that were loaded,
+        # read independently - not against the tree the loader left behind
+        src_unm = ob.unmanaged(ET.fromstring(src[1]))
+        if len(src_unm) != len(before_unm):
+            fail('unmanaged', 'load', 'loading changed the number of unmodelled top-level elements (%d in the file, %d in the tree)'
+                 % (len(src_unm), len(before_unm)))
+            src_unm = before_unm
+    else:
+        src_unm = before_unm
+    before_canon = [chash(c) for c in src_unm]
     def noblank(e):
         # blank text (which indent() may rewrite) reads as no text on both sides
         import copy
@@ -716,7 +740,7 @@ def run_doc(spec, tmpdir):
             if blank(x.text):
                 x.text = None
         return e
-    ubefore = [[ob.uid(c), enc.element(noblank(c))] for c in before_unm]
+    ubefore = [[ob.uid(c), enc.element(noblank(sc))] for c, sc in zip(before_unm, src_unm)]
     out_root = ET.fromstring(B)
     after_canon = [chash(c) for c in ob.unmanaged(out_root)]
     if before_canon != after_canon:
